@@ -116,7 +116,7 @@ pub fn protos() -> Vec<Proto> {
 
 pub fn run(tier: Tier) -> i32 {
     let ctx = Ctx::new("C11", tier, "model_checking");
-    let (extra, devs) = if ctx.quick() { (3, 2) } else { (5, 3) };
+    let (extra, devs) = if ctx.quick() { (4, 3) } else { (6, 4) };
     ctx.set_rule(format!("explicit-state BFS over call sequences on both endpoints (valid/undersized writes, reads of genuine/stale/garbage messages, both conversions, transport writes/reads) for all 38 patterns and one psk variant each; depth 2*#messages+2+{extra}, at most {devs} out-of-phase/failing calls per path; each transition on real snow objects vs the {{role, position, phase}} model"));
     let ps = protos();
     ps.par_iter().for_each(|p| {
